@@ -328,6 +328,10 @@ def scan_shape(g, list_attr):
                 if isinstance(l, ast.Name) and canon_text(r, n.frame, keep=(l.id,)) == f'len(self.{list_attr})' and op in (ast.Lt, ast.GtE):
                     n._in_label = 'T' if op is ast.Lt else 'F'
                     heads.append((n, l.id))
+    if not heads:
+        r = _snapshot_scan(g, list_attr)
+        if r is not None:
+            return r
     if len(heads) != 1:
         return [(None, f'expected one index scan `while i < len(self.{list_attr})`, found {len(heads)}')], None
     head, iv = heads[0]
@@ -397,7 +401,95 @@ def scan_shape(g, list_attr):
                     'both removes the current element and advances the index (skips the next element)' if 'rm' in kinds and 'inc' in kinds else
                     f'changes the index or the list irregularly ({kinds})')
             problems.append((node, f'a path through the scan of {list_attr} {what}'))
+    problems += left_early(g, head, list_attr)
     return problems, head
+
+
+SNAPSHOTS = ('list(self.{a})', 'tuple(self.{a})', 'self.{a}.copy()', 'self.{a}[:]', 'copy.copy(self.{a})', 'copy(self.{a})')
+
+
+def _snapshot_scan(g, list_attr):
+    """the other spelling of the scan: `for x in list(self.<list_attr>): ...` -- every element present when the scan starts is visited
+    once, in list order; a path through the body removes at most the visited element (`L.remove(x)` / `L.pop(L.index(x))`) and changes
+    the list in no other way.  Iterating the live list while removing from it (which skips the successor of every removed element) is
+    reported.  Returns (problems, head) with head._scan_elem = the loop variable, or None when there is no such loop."""
+    L = f'self.{list_attr}'
+    snaps = {t.format(a=list_attr).replace(' ', '') for t in SNAPSHOTS}
+    heads = []
+    for n in g.nodes.values():
+        if n.kind == 'for' and n.note != 'any/all' and isinstance(n.ast, ast.For) and isinstance(n.ast.target, ast.Name):
+            it = canon_text(n.ast.iter, n.frame)
+            if it in snaps or it == L:
+                heads.append((n, it == L))
+    if not heads:
+        return None
+    if len(heads) != 1:
+        return [(None, f'expected one scan of self.{list_attr}, found {len(heads)} loops over it')], None
+    head, live = heads[0]
+    x = head.ast.target.id
+    head._scan_elem = x
+    head._in_label = 'T'
+    problems = []
+
+    def effect(n):
+        a = n.ast
+        if n.kind != 'stmt' or a is None:
+            return None
+        if isinstance(a, ast.Expr):
+            s = canon_text(a.value, n.frame, keep=(x,))
+        elif isinstance(a, ast.Delete) and len(a.targets) == 1:
+            s = 'del' + canon_text(a.targets[0], n.frame, keep=(x,))
+        elif isinstance(a, (ast.Assign, ast.AugAssign)) and any(isinstance(t, ast.Name) and t.id == x for t in (a.targets if isinstance(a, ast.Assign) else [a.target])) \
+                and n.frame is head.frame:
+            return 'other'
+        else:
+            return None
+        if s in (f'{L}.remove({x})', f'{L}.pop({L}.index({x}))', f'del{L}[{L}.index({x})]'):
+            return 'rm'
+        if f'{L}.pop(' in s or f'{L}.remove(' in s or f'del{L}' in s or f'{L}.insert(' in s or f'{L}.clear(' in s or f'{L}.append(' in s or f'{L}.sort(' in s or f'{L}.reverse(' in s:
+            return 'other'
+        return None
+    paths = []
+
+    def dfs(n, seen, effs):
+        if len(paths) > 2000:
+            return
+        if n == head.id:
+            paths.append(list(effs))
+            return
+        if n in seen:
+            return
+        node = g.nodes[n]
+        if node.kind in ('exit', 'raise_exit'):
+            return
+        e = effect(node)
+        if e:
+            effs = effs + [(e, node)]
+        for lbl, m in g.succ[n]:
+            if lbl != 'exc':
+                dfs(m, seen | {n}, effs)
+    for lbl, m in g.succ[head.id]:
+        if lbl == 'T':
+            dfs(m, frozenset(), [])
+    if not paths:
+        problems.append((head, 'the scan loop body never returns to the loop head'))
+    for effs in paths:
+        kinds = [e for e, _ in effs]
+        if kinds.count('rm') > 1 or 'other' in kinds:
+            problems.append((effs[-1][1], f'a path through the scan of {list_attr} changes the list irregularly ({kinds})'))
+        elif live and 'rm' in kinds:
+            problems.append((effs[-1][1], f'the scan iterates the live list self.{list_attr} and removes from it: the element after every removed one is skipped'))
+    problems += left_early(g, head, list_attr)
+    return problems, head
+
+
+def left_early(g, head, list_attr):
+    """leaving the scan from inside its body (break / return) leaves the later elements unexamined: the only way out of the loop is its test"""
+    inl = getattr(head, '_in_label', 'T')
+    body = g.reach_edges([m for lbl, m in g.succ[head.id] if lbl == inl], cut_edges={(head.id, 'T'), (head.id, 'F')})
+    if g.exit in body:
+        return [(head, f'the scan of {list_attr} can be left from inside its body (break / return): later elements are not examined')]
+    return []
 
 
 def loop_body_paths(g, head, limit=4000):
@@ -633,3 +725,70 @@ def check_defaults(ctx, o, triples, unbounded=()):
                 o.fail(P, f'{cname}.{method}', f'{param} = {sig}', f'{param} is documented as optional (absent = unbounded / not set) but defaults to {sig}', file=c.mod.path, line=fn.lineno)
             else:
                 o.witness((cname, method, param))
+
+
+# ---- truthiness of domain objects --------------------------------------------------------------------------------------------
+PART_SLOTS = ('_part', '_output')
+PART_PARAMS = ('part', 'lost_part')
+
+
+def part_truthiness_sites(P):
+    """(cls, func, expr) for every place where an expression holding a part (a handler slot, a parameter named part / lost_part,
+    or a local defined once from one of those) is used for its truth value: `if x`, `x and ..`, `not x`, `a if x else b`, bool(x).
+    Such a test means "is not None" only while no class of the Part hierarchy defines __bool__ / __len__."""
+    from .norm import single_defs
+    out = []
+    for m_, c_, f in inv_functions(P):
+        defs = single_defs(f)
+        params = {a.arg for a in f.args.args + f.args.kwonlyargs}
+
+        def holds_part(e, depth=0):
+            if isinstance(e, ast.Attribute) and isinstance(e.value, ast.Name) and e.value.id == 'self' and e.attr in PART_SLOTS:
+                return True
+            if isinstance(e, ast.Name):
+                if e.id in params and e.id in PART_PARAMS:
+                    return True
+                if e.id in defs and depth < 4:
+                    return holds_part(defs[e.id], depth + 1)
+            return False
+        tests = []
+        for x in ast.walk(f):
+            if isinstance(x, (ast.If, ast.While, ast.IfExp, ast.Assert)):
+                tests.append(x.test)
+            elif isinstance(x, ast.comprehension):
+                tests.extend(x.ifs)
+            elif isinstance(x, ast.Call) and isinstance(x.func, ast.Name) and x.func.id == 'bool' and len(x.args) == 1:
+                tests.append(x.args[0])
+
+        def atoms(t):
+            if isinstance(t, ast.BoolOp):
+                for v in t.values:
+                    yield from atoms(v)
+            elif isinstance(t, ast.UnaryOp) and isinstance(t.op, ast.Not):
+                yield from atoms(t.operand)
+            else:
+                yield t
+        for t in tests:
+            for a_ in atoms(t):
+                if holds_part(a_):
+                    out.append((c_, f, a_))
+        # `x or default` / `x and y` used as values
+        for x in ast.walk(f):
+            if isinstance(x, ast.BoolOp) and not any(x is t or any(x is y for y in ast.walk(t)) for t in tests):
+                for v in x.values[:-1]:
+                    if holds_part(v):
+                        out.append((c_, f, v))
+    return out
+
+
+def inv_functions(P):
+    from . import inventory
+    return inventory.functions(P)
+
+
+def truthiness_overrides(P, root='Part'):
+    """classes of the `root` hierarchy that define __bool__ or __len__ (their instances can be falsy)"""
+    if not P.has_cls(root):
+        return []
+    r = P.cls(root)
+    return [(c, m) for cs in P.by_name.values() for c in cs if r in c.mro for m in ('__bool__', '__len__') if m in c.methods]
